@@ -1,0 +1,42 @@
+//go:build verif
+// +build verif
+
+package spg
+
+import "math/big"
+
+// Exports for the verification harness, compiled only with the "verif" tag.
+
+// VerifRandomUint32n is a stable entry point to the bounded draw.
+func VerifRandomUint32n(n uint32) uint32 { return randomUint32n(n) }
+
+// VerifRandomUint32 is a stable entry point to the raw 32-bit draw.
+func VerifRandomUint32() uint32 { return randomUint32() }
+
+// VerifCount returns the exact integer whose log2 Entropy() reports for a
+// character recipe: the number of strings the recipe can generate.
+func VerifCount(r CharRecipe) *big.Int {
+	cl := r.buildCharacterList()
+	if r.requiredSets.size() != 0 {
+		return r.n()
+	}
+	c := &big.Int{}
+	return c.Exp(toBigInt(len(cl)), toBigInt(r.Length), nil)
+}
+
+// VerifWords returns a copy of the words kept by a word list, in list order.
+func VerifWords(wl *WordList) []string {
+	if wl == nil {
+		return nil
+	}
+	return append([]string(nil), wl.words...)
+}
+
+// VerifUncapitalizable returns the word list's count of words that do not
+// change under title-casing.
+func VerifUncapitalizable(wl *WordList) int {
+	if wl == nil {
+		return 0
+	}
+	return wl.unCapitalizableCount
+}
